@@ -617,6 +617,7 @@ def fresh_runner_modules():
 
 
 _DIRTY = False     # the runner's modules have been used by an execution of this process
+REUSE_MODULES = False   # this sim-run models several runs inside ONE interpreter (API use)
 
 
 def prepare():
@@ -625,7 +626,10 @@ def prepare():
     leak from one to the next.  Engines that patch runner modules themselves (find.os,
     threadsupport.*) call this before they do."""
     global _DIRTY, R, ZF, ZSH, ZST, RecordingRunner
-    if not _DIRTY:
+    if not _DIRTY or REUSE_MODULES:
+        # (REUSE_MODULES: the executions of this spec are successive run_internal() calls of one
+        # process - whatever the runner keeps at module or class level is carried along, and
+        # must not change what a run does)
         return
     _DIRTY = False
     pkg, rec = fresh_runner_modules()
@@ -970,6 +974,16 @@ class SimThread:
 # parent output capture
 
 
+def _stdout_yield():
+    """A parent stdout that is slow (a pipe to a pager, a full terminal buffer): every flush is
+    a scheduling point, so anything may happen between two of the parent's writes."""
+    env = CURRENT_ENV
+    if env is not None and env.knobs.get('stdout_yields') and env.sched.active \
+            and env.sched.current is env.sched.main:
+        env.sched.probe('stdout_flush_yield')
+        env.sched.switch_point()
+
+
 class _TagBinary:
     def __init__(self, log, tag):
         self.log, self.tag = log, tag
@@ -985,7 +999,7 @@ class _TagBinary:
             self.write(ln)
 
     def flush(self):
-        pass
+        _stdout_yield()
 
 
 class TagStream(io.TextIOBase):
@@ -1011,7 +1025,7 @@ class TagStream(io.TextIOBase):
         return len(s)
 
     def flush(self):
-        pass
+        _stdout_yield()
 
     def isatty(self):
         return False
@@ -1333,6 +1347,25 @@ def _pristine(mod):
     return _PRISTINE[mod.__name__]
 
 
+class OsSeam:
+    """`os` as seen by the runner's scheduling code: the machine may have fewer CPUs than -j."""
+
+    def __init__(self, cpus):
+        self._cpus = cpus
+
+    def cpu_count(self):
+        return self._cpus
+
+    def process_cpu_count(self):
+        return self._cpus
+
+    def sched_getaffinity(self, pid):
+        return set(range(self._cpus))
+
+    def __getattr__(self, name):
+        return getattr(os, name)
+
+
 def sim_namespaces(env):
     """The simulated time/subprocess/threading/queue modules of one execution."""
     import queue as real_queue
@@ -1398,7 +1431,11 @@ def install_seams(env, real=False):
             else:
                 setattr(mod, k, getattr(ns[base], attr))
     if not real:
-        sys.modules['zope.testrunner.runner'].Runner = RecordingRunner
+        rmod = sys.modules['zope.testrunner.runner']
+        rmod.Runner = RecordingRunner
+        cpus = getattr(env, 'knobs', {}).get('cpus')
+        if cpus and getattr(rmod, 'os', None) is os:
+            rmod.os = OsSeam(cpus)
 
 
 def _scan_pristine():
